@@ -16,8 +16,8 @@ from collections import Counter
 from . import env
 
 VERIF = env.VERIF
-EVIDENCE_DIR = os.path.join(VERIF, "evidence")
-REPLAY_DIR = os.path.join(VERIF, "replays")
+EVIDENCE_DIR = os.environ.get("VERIF_EVIDENCE_DIR") or os.path.join(VERIF, "evidence")  # override only when trying seeded mutants
+REPLAY_DIR = os.environ.get("VERIF_REPLAY_DIR") or os.path.join(VERIF, "replays")
 FINDINGS = os.path.join(VERIF, "known_findings.json")
 
 _MOD = None
@@ -81,7 +81,7 @@ def load_findings(prop):
 
 def match_finding(findings, v):
     for f in findings:
-        if f.get("kind") != v.get("kind"):
+        if v.get("kind") not in ([f["kind"]] if "kind" in f else f.get("kinds", [])):
             continue
         where = f.get("where", {})
         facts = v.get("facts", {})
